@@ -148,7 +148,7 @@ func (c *c15) run(line []byte, st *stats, out func(mismatch)) {
 		if c.corrupt > 0 && int(c.n)%c.corrupt == 0 {
 			// self-test of the binding: a corrupted expectation must be reported
 			if exp.Outcome == "ok" {
-				exp.FQN += "x"
+				exp.Outcome, exp.FQN, exp.Kind = "notfound", "", "null"
 			} else {
 				exp.Outcome, exp.FQN, exp.Kind = "ok", "zz.corrupt", "message"
 			}
